@@ -5,8 +5,8 @@ from . import nodeshape, slottypes
 
 TEXT = ("annotation-driven typing of AST-node expressions in %s (parameter annotations, `# type:` comments, constructor slot "
         "annotations, loops, zip/sorted/comprehensions, lambdas, isinstance/type() narrowing): every attribute read on an "
-        "expression typed as a set of node classes exists on every class of the set, and a str is never handed to a parameter "
-        "annotated as a sequence of elements — %s")
+        "expression typed as a set of node classes exists on every class of the set, a node-typed function returns only node kinds of "
+        "its declared return type, and a str is never handed to a parameter annotated as a sequence of elements — %s")
 
 
 def run_rule(prog, run, rid, scope_text, consequence, prefixes, floor, seed=None):
@@ -37,6 +37,10 @@ def run_rule(prog, run, rid, scope_text, consequence, prefixes, floor, seed=None
             key = "%s:%s:no-attribute(%s on %s)" % (fi.module.name, fi.qualname, ast.unparse(node), "|".join(missing))
             msg = "`%s` is typed as a node that may be %s, which has no attribute `%s`: AttributeError at run time" % (
                 ast.unparse(node.value), " / ".join(missing), what)
+        elif kind == "ret":
+            key = "%s:%s:returns(%s)" % (fi.module.name, fi.qualname, "|".join(missing))
+            msg = "`%s` may be a %s node but %s is declared to return %s: callers read attributes that node kind does not have" % (
+                " ".join(ast.unparse(node).split())[:70], " / ".join(missing), fi.qualname, what)
         else:
             key = "%s:%s:str-as-sequence(%s)" % (fi.module.name, fi.qualname, what)
             msg = "a str (a name) is passed where a sequence of elements is expected in %s: indexing it yields single characters" % what
